@@ -511,6 +511,11 @@ func (x *Unit) runLoop(pre *State, lb loopBody, fl *flow, label string) *State {
 		g := x.specEval(head, inv.Expr, x.bodySpecCtx(head, lb.node))
 		x.assume(head, g.T)
 	}
+	// the function's declared frame is an automatic loop invariant
+	if x.fr.parent == nil && x.inlineDepth == 0 {
+		x.frameCheck(pre, fmt.Sprintf("loop%d.frame.entry", k), lb.node)
+		x.frameAssume(head)
+	}
 	if x.dry == 0 {
 		o := x.oblige(head, fmt.Sprintf("loop%d.canary", k), "reachable", False, lb.node)
 		o.WantSat = true
@@ -544,6 +549,9 @@ func (x *Unit) runLoop(pre *State, lb loopBody, fl *flow, label string) *State {
 		for i, inv := range spec.invs {
 			g := x.specEval(bs, inv.Expr, x.bodySpecCtx(bs, lb.node))
 			x.oblige(bs, fmt.Sprintf("loop%d.inv.preserved", k), clauseLabel(inv, i), g.T, lb.node)
+		}
+		if x.fr.parent == nil && x.inlineDepth == 0 {
+			x.frameCheck(bs, fmt.Sprintf("loop%d.frame.preserved", k), lb.node)
 		}
 		for i, d := range spec.decs {
 			d1 := x.specEval(bs, d.Expr, x.bodySpecCtx(bs, lb.node)).T
@@ -662,7 +670,7 @@ func (x *Unit) execRange(st *State, s *ast.RangeStmt, fl *flow, label string) *S
 		case *types.Basic:
 			if t2.Info()&types.IsString != 0 {
 				isStr = true
-				ln = App(SInt, "str.len", coll.T)
+				ln = App(SInt, "gs.len", coll.T)
 				elemAt = func(h *State, i T) *Val {
 					r := x.freshVal(h, "rune", types.Typ[types.Rune])
 					x.assume(h, Cmp(">=", r.T, IntLit(0)))
@@ -1047,5 +1055,31 @@ func (x *Unit) execGo(st *State, s *ast.GoStmt) {
 	} else {
 		x.prepareCall(st, s.Call)
 	}
-	x.bumpEvent(st, "spawn")
+	defer x.bumpEvent(st, "spawn")
+	// "at go NAME assert e": NAME is the spawned callee text or "lit" (evaluated just before the spawn)
+	if b := x.eng.blockFor(x.pkg.PkgPath, x.fr.loopBase); b != nil {
+		name := x.srcOf(s.Call.Fun)
+		if _, ok := ast.Unparen(s.Call.Fun).(*ast.FuncLit); ok {
+			name = "lit"
+		}
+		ordKey := x.fr.loopBase + "|go " + name
+		ord := x.callOrd[ordKey]
+		x.callOrd[ordKey] = ord + 1
+		for i, cl := range b.Clauses {
+			if cl.Kind != "at" || cl.AtKind != "go" || cl.AtName != name {
+				continue
+			}
+			if cl.AtOrd >= 0 && cl.AtOrd != ord {
+				continue
+			}
+			x.atSeen[i]++
+			c := x.bodySpecCtx(st, s)
+			g := x.specEval(st, cl.Expr, c)
+			if cl.AtAction == "assert" {
+				x.oblige(st, "at", fmt.Sprintf("go %s:%s", name, clauseLabel(cl, i)), g.T, s)
+			} else {
+				x.assume(st, g.T)
+			}
+		}
+	}
 }
